@@ -53,6 +53,7 @@ KINDS = [
     ("sweep", None, False),
     ("sweep", None, True),
     ("subtree-support", None, True),
+    ("subtree-decomp", None, None),
 ]
 TOL = 1e-9
 
@@ -71,7 +72,7 @@ def _case(draw, tier, shard):
         n = draw(st.sampled_from([3, 4, 2] if not out else ([3, 2] if quick else [3, 4, 2])))
     elif kind == "sweep":
         n = 2
-    elif kind == "subtree-support":
+    elif kind in ("subtree-support", "subtree-decomp"):
         n = 3
     elif kind == "subtree-inner":
         n = draw(st.sampled_from([3, 2] if not out else ([2] if quick else [2, 3])))
@@ -177,6 +178,10 @@ def evaluate(case):
                 K, leaves = exact.transition_matrix(samplers["sub"].sample_tree, keys, trees, rng, comp, tags, budget_, rows=rows)
                 resid = 0.0
                 classes.append("rows=%d" % len(rows))
+            elif kind == "subtree-decomp":
+                comp = "subtree-full/%s/decomposition" % case["proposal"]
+                K, leaves = _decomposition(world, samplers["sub"], case, keys, mts, trees, comp, tags, budget_)
+                resid = 0.0
             elif kind == "sweep":
                 comp = "sweep"
                 K, leaves, resid = _sweep(world, samplers, case, keys, mts, trees, tags, budget_)
@@ -257,6 +262,57 @@ def _inner(world, sampler, case, comp, tags, budget_):
                         t["residual"] = float(resid)
                         raise Violation(comp, "inner subtree kernel not invariant: residual %.3e (context %r, parent %r, %d forests)" % (resid, cm, parent, len(keys)), t)
     return leaves, nontriv
+
+
+def _decomposition(world, sampler, case, keys, mts, trees, comp, tags, budget_):
+    """sample_tree == (uniform choice of a non-outlier data point's clone) o (inner kernel on the selected subtree).
+    Independent of the known finding F7 (which concerns the selection probabilities): for a few start trees the exact
+    law of sample_tree must equal the mixture, over the possible choices, of the exact law of
+    sample_swarm -> _correct_weights -> _sample_tree_from_swarm applied to the subtree the choice selects - the kernel
+    that `subtree-inner` proves invariant.  A shortcut taken inside sample_tree for some selections shows up here."""
+    rng = world["rng"]
+    idx = {k: i for i, k in enumerate(keys)}
+    cand = [i for i, m in enumerate(mts) if m.k >= 2 and (len(m.roots()) >= 2 or any(m.parent[c] != -1 for c in range(m.k)))]
+    if not cand:
+        raise exact.Inconclusive("no start tree with structure")
+    off = case.get("warm_at", 0)
+    rows = [cand[(off + 5 * j) % len(cand)] for j in range(min(5, len(cand)))]
+    K = np.zeros((len(keys), len(keys)))
+    leaves = 0
+    for i in sorted(set(rows)):
+        S = trees[i]
+        res = explore(lambda: tree_key(sampler.sample_tree(S.copy())), rng, max_leaves=budget_)
+        leaves += len(res)
+        got = {}
+        for p, o in res:
+            got[o] = got.get(o, 0.0) + p
+            if o in idx:
+                K[i, idx[o]] += p
+        nodes = [lab for lab in S.labels.values() if lab != S.outlier_node_name]
+        expect = {}
+        for c in nodes:
+            t = S.copy()
+            sroot = t.get_parent(c)
+            parent = t.get_parent(sroot)
+            sub = t.get_subtree(sroot)
+            t.remove_subtree(sub)
+            for dp in t.outliers:
+                t.remove_data_point_from_outliers(dp)
+                sub.add_data_point_to_outliers(dp)
+
+            def inner():
+                swarm = sampler.sample_swarm(sub.copy())
+                swarm = sampler._correct_weights(parent, swarm, t.copy())
+                return tree_key(sampler._sample_tree_from_swarm(swarm))
+
+            r2 = explore(inner, rng, max_leaves=budget_)
+            leaves += len(r2)
+            for p, o in r2:
+                expect[o] = expect.get(o, 0.0) + p / len(nodes)
+        worst = max(abs(got.get(k, 0.0) - expect.get(k, 0.0)) for k in set(got) | set(expect))
+        if worst > 1e-9:
+            raise Violation(comp, "from %r the subtree update's outcome law differs by %.3e from the mixture of inner kernels over its possible subtree choices" % (mts[i], worst), dict(tags, residual=worst))
+    return K, leaves
 
 
 def _sweep(world, samplers, case, keys, mts, trees, tags, budget_):
